@@ -219,17 +219,34 @@ theorem C12_duplicates_never_build (env : Env) (tag : String) (ts : List Ty) (i 
     exact buildTagMap_missing env tag ts 0 [] this
 
 /-- **C12 (a member without the tag).** The first member that lacks the tag attribute, after members
-that are fine: `AttributeError` naming the tag. -/
+that are fine: `TypeError` naming the tag (it used to be `AttributeError`). -/
 theorem C12_missing_tag_refused (env : Env) (tag : String) (pre post : List Ty) (t : Ty)
     (tm' : List (Val × Nat)) (hpre : buildTagMap env tag pre 0 [] = .ok tm') (ht : tagAttr env tag t = none) :
     buildTagMap env tag (pre ++ t :: post) 0 [] =
-      .error (.attributeError ("Tag '" ++ tag ++ "' not found inside type")) := by
+      .error (.typeError ("Tag '" ++ tag ++ "' not found inside type")) := by
   rw [buildTagMap_append, hpre]
   simp only [buildTagMap_cons, ht]
 
 theorem C12_missing_tag_never_builds (env : Env) (tag : String) (ts : List Ty)
     (h : ∃ t ∈ ts, tagAttr env tag t = none) : ∃ e, buildTagMap env tag ts 0 [] = .error e :=
   buildTagMap_missing env tag ts 0 [] h
+
+/-- every refusal of `buildTagMap` is a `TypeError` (C04: an unsupported type fails with TypeError) -/
+theorem C12_tagmap_refusal_is_typeError (env : Env) (tag : String) (ts : List Ty) (i : Nat) (acc : List (Val × Nat))
+    (e : BuildErr) (h : buildTagMap env tag ts i acc = .error e) : ∃ msg, e = .typeError msg := by
+  induction ts generalizing i acc with
+  | nil => rw [buildTagMap_nil] at h; cases h
+  | cons t ts ih =>
+    rw [buildTagMap_cons] at h
+    cases hv : tagAttr env tag t with
+    | none => simp only [hv] at h; cases h; exact ⟨_, rfl⟩
+    | some v =>
+      simp only [hv] at h
+      split at h
+      · cases h; exact ⟨_, rfl⟩
+      · split at h
+        · cases h; exact ⟨_, rfl⟩
+        · exact ih _ _ h
 
 /-- **C12 (shape of the tag map).** One entry per member, in member order, the `i`-th being (declared
 tag of member `i`, `i`); the keys are hashable and pairwise different under Python `==`; every index
@@ -556,7 +573,7 @@ example : ∃ msg, buildTagMap envDup "kind" [.cls "P" [], .cls "Q" []] 0 [] = .
 example : buildTagMap envDup "kind" [.cls "P" [], .cls "Q" []] 0 [] =
     .error (.typeError "Tag value matches multiple types") := by with_unfolding_all rfl
 example : buildTagMap envDup "kind" [.cls "P" [], .cls "R" [], .cls "Q" []] 0 [] =
-    .error (.attributeError "Tag 'kind' not found inside type") :=
+    .error (.typeError "Tag 'kind' not found inside type") :=
   C12_missing_tag_refused envDup "kind" [.cls "P" []] [.cls "Q" []] (.cls "R" []) [(.int 1, 0)]
     (by with_unfolding_all rfl) (by rfl)
 example : ∃ e', makeConverter envDup {} (.annotated (.union [.cls "P" [], .cls "Q" []]) [.tagged "kind" .internal]) =
@@ -622,6 +639,7 @@ example : tryC extRaising (exTagged .internal) (.dict [(.str "y", .str "hi")]) =
 #print axioms C12_duplicates_never_build
 #print axioms C12_missing_tag_refused
 #print axioms C12_missing_tag_never_builds
+#print axioms C12_tagmap_refusal_is_typeError
 #print axioms C12_tag_map_shape
 #print axioms C12_build
 #print axioms C12_refused_at_build
